@@ -518,6 +518,19 @@ func genC17(w *bufio.Writer, tier string, rng *rand.Rand) {
 		if lo > hi {
 			lo, hi = hi, lo
 		}
+		if rng.Intn(6) == 0 { // an end a tiny relative distance from a power of a base
+			b0 := []float64{10, 2, 16}[rng.Intn(3)]
+			pw := math.Pow(b0, float64(rng.Intn(40)-8))
+			off := 1 + math.Pow(10, -float64(5+rng.Intn(9)))*float64(rng.Intn(2)*2-1)
+			if rng.Intn(2) == 0 {
+				hi = pw * off
+			} else {
+				lo = pw * off
+			}
+			if lo > hi {
+				lo, hi = hi, lo
+			}
+		}
 		if rng.Intn(3) == 0 {
 			lo, hi = -hi, -lo
 		}
@@ -532,6 +545,9 @@ func genC17(w *bufio.Writer, tier string, rng *rand.Rand) {
 		minL, maxL := 0, 0
 		if rng.Intn(5) == 0 {
 			minL, maxL = rng.Intn(3), rng.Intn(6)
+			if rng.Intn(3) == 0 { // any integers are level limits
+				minL, maxL = rng.Intn(7)-4, rng.Intn(7)-3
+			}
 		}
 		op := "gticks"
 		if rng.Intn(3) == 0 {
